@@ -1,7 +1,962 @@
-import RbdlProofs.Lemmas.Rot
-/- C07 — property theorems (being filled in) -/
+import RbdlProofs.Lemmas.L07Ex
+import RbdlProofs.Lemmas.L07Ex2
+import RbdlProofs.Lemmas.L07Ex3
+/-
+  C07 — equivalent model descriptions give identical kinematics and dynamics.
+
+  A  the specialised 3-DoF joints (four Euler orders, `TranslationXYZ`) versus the chain of three
+     built-in 1-DoF joints about the same axes, at the level of `jcalc`
+       `euler_E_eq_product`, `euler_S_eq_transported_axes`, `euler_vJ_eq_chain`, `euler_cJ_eq_chain`,
+       `euler_jcalc_eq_chain`, `translation_jcalc_eq_chain`
+  B  three steps of the forward recursion through the chain = one step of the 3-DoF joint
+       `chain3_eq_single_step`, `euler_step_eq_chain_steps`, `translation_step_eq_chain_steps`
+  C  the three chain torques of `InverseDynamics` = `S₃ᵀ F` of the 3-DoF joint
+       `chain_torques`, `euler_chain_torques`, `translation_chain_torques`
+  C' whole model: `InverseDynamics` on the model with the 3-DoF joint = on the model with the chain
+       `euler_is_composite`, `translation_is_composite`, `multidof_vs_chain_inverseDynamics`,
+       `multidof_vs_chain_inverseDynamics_all`, `multidof_vs_chain_nonlinearEffects`,
+       `updateKinematics_closed`, `multidof_vs_chain_updateKinematics`
+  D  `FloatingBase` = `TranslationXYZ` then `Spherical`      `floatingBase_eq_translation_spherical`
+  E  fixed joint versus inertia merged beforehand
+       `fixed_joint_mass_properties`, `fixed_joint_vs_merged_body`, `dynamics_read_movable_arrays`,
+       `fixed_joint_vs_merged_dynamics`
+  F  `RevoluteX` built in / `Revolute` with axis x / user-defined      `revoluteX_three_ways`,
+       `revolute_builtin_vs_axis`, `eulerZYX_custom_vs_builtin`
+  G  spherical versus Euler joint        `spherical_vs_euler`, `euler_omega_dot`
+  H  sibling order / relabelling of bodies
+       `relabel_children`, `relabel_rnea`, `relabel_joint_rows`, `relabel_rnea_of_joints`,
+       `relabel_nonlinearEffects`, `relabel_updateKinematics`, `sibling_order_relabel`,
+       `sibling_order_of_addBody`
+
+  Helper definitions: `L07.EulerChain`, `L07.TransChain` (which joints of the two models correspond),
+  `L07.FixedW` (= `FixedAt` of Rbdl/WSInv.lean for joint `i`: the construction-time workspace
+  entries), `L07.Kin`, `L07.kstep` (one step of the forward recursion), `L07.chainVJ`, `L07.chainCJ`
+  (relative velocity / accumulated velocity-product acceleration of a chain of three joints),
+  `L07.kinOf`, `L07.parentKin` (`X_base, v, a` of a body / of what a step reads from the parent),
+  `L07.reFNP` (a model with other `mFixedBodies`, names, `previously_added_body_id`),
+  `L07.Relabel` (a bijection of body indices commuting with `lambda` and the per-body data),
+  `L07.jrow` (what the dynamics use of a joint: `X_λ`, `v_J`, `c_J`, columns of `S`, `S q̈`),
+  `L07.twoSiblings`, `L07.swap2` (two single-body siblings added to a parent; exchange of the last two
+  indices), `L07.JointEq`, `L07.CoordEq` (same joint up to the position of its coordinates; states agreeing on
+  them), `L07.FextEq` (corresponding external forces), `L07.Composite3` (a 3-DoF joint is the composite
+  of a chain of three 1-DoF joints at a state), `L07.ChainEmbed` (the bodies of the model with the
+  3-DoF joint embedded into those of the model with the chain).
+
+  Findings.
+  * `E`, the columns of `S`, `v_J` **and `c_J`** of the Euler joints are polynomial identities in the
+    `(cos, sin)` pairs: no unit-circle condition is needed (A).  The circle condition enters only
+    when the chain is entered with a moving parent (B, C'): the transforms of the second and third
+    chain joint must be rotations (machine-checked counterexample after `chain3_eq_single_step`);
+    the first angle and the joint frame are unconstrained for the Euler joints.  For
+    `TranslationXYZ` the joint frame must be a rotation + translation (B) because the chain
+    transforms are translations, not pure rotations.
+  * The whole-model statements C' are for `InverseDynamics` without external forces,
+    `NonlinearEffects` and `UpdateKinematics` (the latter for models without custom joints); H is
+    proved with external forces.  `CompositeRigidBodyAlgorithm` and `ForwardDynamics` are lifted to
+    whole models only for E (fixed joint versus merged body), where all routines coincide.
+-/
 namespace Rbdl.C07
-open Lean.Grind Rbdl
-variable {α : Type} [CommRing α]
-theorem placeholder_rot_one : (M3.one : M3 α).IsRot := M3.isRot_one
+open Lean.Grind Rbdl Rbdl.Loops Rbdl.L01 Rbdl.L07
+set_option linter.unusedVariables false
+
+/-! ## A. `jcalc` of the specialised 3-DoF joints -/
+section A
+variable {α : Type} [Field α]
+
+/-- A1. `E` of an Euler joint is the product of the three revolute joint transforms, in the order
+    of the joint's axes (no condition on the `(cos, sin)` pairs). -/
+theorem euler_E_eq_product (e : JT) (he : isEuler e = true) (c0 s0 c1 s1 c2 s2 : α) :
+    (⟨eulerE e c0 s0 c1 s1 c2 s2, V3.zero⟩ : XT α)
+      = rotJ (eulerAxes e).2.2 c2 s2 * rotJ (eulerAxes e).2.1 c1 s1 * rotJ (eulerAxes e).1 c0 s0 :=
+  eulerE_eq e he c0 s0 c1 s1 c2 s2
+example : (⟨eulerZYX_E (3/5) (4/5) (5/13) (12/13) (4/5) (3/5), V3.zero⟩ : XT Rat)
+    = Xrotx (4/5) (3/5) * Xroty (5/13) (12/13) * Xrotz (3/5) (4/5) :=
+  euler_E_eq_product .eulerZYX rfl _ _ _ _ _ _
+
+/-- A2. The columns of `multdof3_S` are the three revolute axes transported into the frame of the
+    last body: `X₃ X₂ s₁`, `X₃ s₂`, `s₃`. -/
+theorem euler_S_eq_transported_axes (e : JT) (he : isEuler e = true) (c1 s1 c2 s2 : α) :
+    eulerS e M63.zero c1 s1 c2 s2
+      = ⟨(rotJ (eulerAxes e).2.2 c2 s2).apply ((rotJ (eulerAxes e).2.1 c1 s1).apply
+            (axisJ (eulerAxes e).1)),
+         (rotJ (eulerAxes e).2.2 c2 s2).apply (axisJ (eulerAxes e).2.1),
+         axisJ (eulerAxes e).2.2⟩ :=
+  eulerS_eq e he c1 s1 c2 s2
+example := euler_S_eq_transported_axes (α := Rat) .eulerYXZ rfl (3/5) (4/5) (5/13) (12/13)
+
+/-- A3. `v_J = S q̇` is the velocity of the last body of the chain relative to the chain's parent. -/
+theorem euler_vJ_eq_chain (e : JT) (he : isEuler e = true) (c1 s1 c2 s2 x0 x1 x2 : α) :
+    (eulerS e M63.zero c1 s1 c2 s2).mulV3 ⟨x0, x1, x2⟩
+      = chainVJ (rotJ (eulerAxes e).2.1 c1 s1) (rotJ (eulerAxes e).2.2 c2 s2)
+          (x0 * (axisJ (eulerAxes e).1 : SV α)) (x1 * (axisJ (eulerAxes e).2.1 : SV α))
+          (x2 * (axisJ (eulerAxes e).2.2 : SV α)) :=
+  eulerVJ_eq e he c1 s1 c2 s2 x0 x1 x2
+example := euler_vJ_eq_chain (α := Rat) .eulerXYZ rfl (3/5) (4/5) (5/13) (12/13) 1 (-2) 3
+
+/-- A4. `c_J` is the velocity-product acceleration `X₃ X₂ c₁ + X₃ c₂ + c₃`, `c_k = v_k ×ₘ v_J,k`,
+    accumulated by the forward recursion through the chain with the chain's parent at rest
+    (a polynomial identity: no condition on the `(cos, sin)` pairs). -/
+theorem euler_cJ_eq_chain (e : JT) (he : isEuler e = true) (c1 s1 c2 s2 x0 x1 x2 : α) :
+    eulerCJ e c1 s1 c2 s2 x0 x1 x2
+      = chainCJ (rotJ (eulerAxes e).2.1 c1 s1) (rotJ (eulerAxes e).2.2 c2 s2)
+          (x0 * (axisJ (eulerAxes e).1 : SV α)) SV.zero (x1 * (axisJ (eulerAxes e).2.1 : SV α))
+          SV.zero (x2 * (axisJ (eulerAxes e).2.2 : SV α)) SV.zero :=
+  eulerCJ_eq e he c1 s1 c2 s2 x0 x1 x2
+example := euler_cJ_eq_chain (α := Rat) .eulerZXY rfl (3/5) (4/5) (5/13) (12/13) 1 (-2) 3
+
+/-- A (all four Euler orders). For corresponding joints (`EulerChain`) and workspaces that hold
+    the construction-time entries, `jcalc` of the Euler joint gives
+    `X_λ = X₃ X₂ X₁`, `S = [X₃ X₂ s₁, X₃ s₂, s₃]`, `v_J` = the chain's relative velocity and
+    `c_J` = the chain's accumulated velocity-product term (for every state), where
+    `X_k, s_k, v_J,k, c_J,k` are what `jcalc` gives for the three revolute joints. -/
+theorem euler_jcalc_eq_chain {mE mC : ModelS α} {i i1 i2 i3 : Nat}
+    (h : EulerChain mE i mC i1 i2 i3) (wE w1 w2 w3 : WS α) (st : QS α)
+    (qd : VecN α) (hE : FixedW mE wE i) (hw1 : FixedW mC w1 i1) (hw2 : FixedW mC w2 i2)
+    (hw3 : FixedW mC w3 i3) :
+    let X1 := (jcalc mC w1 i1 st qd).X_lambda i1
+    let X2 := (jcalc mC w2 i2 st qd).X_lambda i2
+    let X3 := (jcalc mC w3 i3 st qd).X_lambda i3
+    (jcalc mE wE i st qd).X_lambda i = X3 * X2 * X1 ∧
+    (jcalc mE wE i st qd).S3 i
+      = ⟨X3.apply (X2.apply ((jcalc mC w1 i1 st qd).S i1)), X3.apply ((jcalc mC w2 i2 st qd).S i2),
+         (jcalc mC w3 i3 st qd).S i3⟩ ∧
+    (jcalc mE wE i st qd).v_J i
+      = chainVJ X2 X3 ((jcalc mC w1 i1 st qd).v_J i1) ((jcalc mC w2 i2 st qd).v_J i2)
+          ((jcalc mC w3 i3 st qd).v_J i3) ∧
+    (jcalc mE wE i st qd).c_J i
+      = chainCJ X2 X3 ((jcalc mC w1 i1 st qd).v_J i1) ((jcalc mC w1 i1 st qd).c_J i1)
+          ((jcalc mC w2 i2 st qd).v_J i2) ((jcalc mC w2 i2 st qd).c_J i2)
+          ((jcalc mC w3 i3 st qd).v_J i3) ((jcalc mC w3 i3 st qd).c_J i3) :=
+  euler_jcalc h wE w1 w2 w3 st qd hE hw1 hw2 hw3
+
+/-- A (`TranslationXYZ` versus three prismatic joints along x, y, z); here `c_J = 0` on both
+    sides and no condition on the state is needed. -/
+theorem translation_jcalc_eq_chain {mE mC : ModelS α} {i i1 i2 i3 : Nat}
+    (h : TransChain mE i mC i1 i2 i3) (wE w1 w2 w3 : WS α) (st : QS α)
+    (qd : VecN α) (hE : FixedW mE wE i) (hw1 : FixedW mC w1 i1) (hw2 : FixedW mC w2 i2)
+    (hw3 : FixedW mC w3 i3) :
+    let X1 := (jcalc mC w1 i1 st qd).X_lambda i1
+    let X2 := (jcalc mC w2 i2 st qd).X_lambda i2
+    let X3 := (jcalc mC w3 i3 st qd).X_lambda i3
+    (jcalc mE wE i st qd).X_lambda i = X3 * X2 * X1 ∧
+    (jcalc mE wE i st qd).S3 i
+      = ⟨X3.apply (X2.apply ((jcalc mC w1 i1 st qd).S i1)), X3.apply ((jcalc mC w2 i2 st qd).S i2),
+         (jcalc mC w3 i3 st qd).S i3⟩ ∧
+    (jcalc mE wE i st qd).v_J i
+      = chainVJ X2 X3 ((jcalc mC w1 i1 st qd).v_J i1) ((jcalc mC w2 i2 st qd).v_J i2)
+          ((jcalc mC w3 i3 st qd).v_J i3) ∧
+    (jcalc mE wE i st qd).c_J i
+      = chainCJ X2 X3 ((jcalc mC w1 i1 st qd).v_J i1) ((jcalc mC w1 i1 st qd).c_J i1)
+          ((jcalc mC w2 i2 st qd).v_J i2) ((jcalc mC w2 i2 st qd).c_J i2)
+          ((jcalc mC w3 i3 st qd).v_J i3) ((jcalc mC w3 i3 st qd).c_J i3) ∧
+    (jcalc mE wE i st qd).c_J i = SV.zero :=
+  ⟨(trans_jcalc h wE w1 w2 w3 st qd hE hw1 hw2 hw3).1,
+   (trans_jcalc h wE w1 w2 w3 st qd hE hw1 hw2 hw3).2.1,
+   (trans_jcalc h wE w1 w2 w3 st qd hE hw1 hw2 hw3).2.2.1,
+   (trans_jcalc h wE w1 w2 w3 st qd hE hw1 hw2 hw3).2.2.2,
+   (jcalc_trans mE wE i st qd h.trans hE).2.2.2⟩
+
+end A
+
+section AEx
+open Rbdl.L07.Ex
+/-- the models `AddBody` builds for the specialised joint and for the emulated 3-DoF joint about
+    the same axes correspond, for all four orders -/
+example : EulerChain (mE .eulerZYX) 2 (mC .eulerZYX) 2 3 4 ∧
+    EulerChain (mE .eulerXYZ) 2 (mC .eulerXYZ) 2 3 4 ∧
+    EulerChain (mE .eulerYXZ) 2 (mC .eulerYXZ) 2 3 4 ∧
+    EulerChain (mE .eulerZXY) 2 (mC .eulerZXY) 2 3 4 := ⟨chainZYX, chainXYZ, chainYXZ, chainZXY⟩
+example := euler_jcalc_eq_chain chainZYX wE wC wC wC st qd
+  (wE_fixed 2 (by decide) (by rw [mE_n]; decide)) (wC_fixed 2 (by decide) (by rw [mC_n]; decide))
+  (wC_fixed 3 (by decide) (by rw [mC_n]; decide)) (wC_fixed 4 (by decide) (by rw [mC_n]; decide))
+example := translation_jcalc_eq_chain chainT wTE wTC wTC wTC st qd
+  (wTE_fixed 2 (by decide) (by rw [mTE_n]; decide)) (wTC_fixed 2 (by decide) (by rw [mTC_n]; decide))
+  (wTC_fixed 3 (by decide) (by rw [mTC_n]; decide)) (wTC_fixed 4 (by decide) (by rw [mTC_n]; decide))
+end AEx
+
+/-! ## B. Three steps of the forward recursion through the chain = one step of the 3-DoF joint -/
+section B
+variable {α : Type} [Field α]
+
+/-- B (joint-type independent). Three steps `v = X_λ v(λ) + v_J`, `a = X_λ a(λ) + c_J + v ×ₘ v_J + S q̈`,
+    `X_base = X_λ X_base(λ)` through joints whose transforms `X₂`, `X₃` have rotation matrices
+    collapse into one step of the composite joint `X₃ X₂ X₁`, with `v_J = chainVJ`, `c_J = chainCJ`,
+    `S q̈ = X₃ X₂ S₁q̈₁ + X₃ S₂q̈₂ + S₃q̈₃`, provided `(X₃ X₂ X₁) v = X₃ (X₂ (X₁ v))`
+    (`L07.mul_apply3_r0`: true when `X₂`, `X₃` are pure rotations; `L07.mul_apply3_rot`: true when
+    `X₁`, `X₂` have rotation matrices). -/
+theorem chain3_eq_single_step (X1 X2 X3 : XT α) (h2 : X2.E.IsRot) (h3 : X3.E.IsRot)
+    (e1 : ∀ v, (X3 * X2 * X1).apply v = X3.apply (X2.apply (X1.apply v)))
+    (vJ1 cJ1 sq1 vJ2 cJ2 sq2 vJ3 cJ3 sq3 : SV α) (p : Kin α) :
+    kstep X3 vJ3 cJ3 sq3 (kstep X2 vJ2 cJ2 sq2 (kstep X1 vJ1 cJ1 sq1 p))
+      = kstep (X3 * X2 * X1) (chainVJ X2 X3 vJ1 vJ2 vJ3)
+          (chainCJ X2 X3 vJ1 cJ1 vJ2 cJ2 vJ3 cJ3)
+          (X3.apply (X2.apply sq1) + X3.apply sq2 + sq3) p :=
+  kstep3 X1 X2 X3 h2 h3 e1 vJ1 cJ1 sq1 vJ2 cJ2 sq2 vJ3 cJ3 sq3 p
+example (vJ1 cJ1 sq1 vJ2 cJ2 sq2 vJ3 cJ3 sq3 : SV Rat) (p : Kin Rat) :=
+  chain3_eq_single_step C16.Ex.X (Xroty (3/5) (4/5)) (Xrotx (4/5) (3/5))
+    (C16.Xroty_isRot _ _ (by grind)) (C16.Xrotx_isRot _ _ (by grind))
+    (mul_apply3_r0 _ _ _ rfl rfl) vJ1 cJ1 sq1 vJ2 cJ2 sq2 vJ3 cJ3 sq3 p
+
+/-- the rotation hypotheses cannot be dropped: with `X₂ = Xroty` at `(cos, sin) = (2, 0)` (a pure
+    "rotation" off the unit circle, so the composition hypothesis `e1` still holds by
+    `mul_apply3_r0`) the accelerations differ -/
+example :
+    let p0 : Kin Rat := ⟨XT.id, ⟨⟨1, 0, 0⟩, V3.zero⟩, SV.zero⟩
+    let vz : SV Rat := sv6 0 0 1 0 0 0
+    let vy : SV Rat := sv6 0 1 0 0 0 0
+    let vx : SV Rat := sv6 1 0 0 0 0 0
+    (kstep XT.id vx SV.zero SV.zero (kstep (Xroty 2 0) vy SV.zero SV.zero
+        (kstep XT.id vz SV.zero SV.zero p0))).a.w.y
+      ≠ (kstep (XT.id * Xroty 2 0 * XT.id) (chainVJ (Xroty 2 0) XT.id vz vy vx)
+          (chainCJ (Xroty 2 0) XT.id vz SV.zero vy SV.zero vx SV.zero)
+          (XT.id.apply ((Xroty 2 0).apply SV.zero) + XT.id.apply SV.zero + SV.zero) p0).a.w.y := by
+  decide +kernel
+
+/-- B (all four Euler orders). From the same `X_base`, `v`, `a` of the parent, one iteration of the
+    `UpdateKinematics` loop on the Euler joint leaves in body `i` the `X_base`, `v`, `a` that three
+    iterations on the chain `i₁ → i₂ → i₃` leave in body `i₃`, for all `q`, `q̇`, `q̈` with the second
+    and third angle given by points of the unit circle. -/
+theorem euler_step_eq_chain_steps {mE mC : ModelS α} {i i1 i2 i3 : Nat}
+    (h : EulerChain mE i mC i1 i2 i3) (wE wC : WS α) (st : QS α)
+    (qd qdd : VecN α) (hE : FixedW mE wE i) (hw1 : FixedW mC wC i1) (hw2 : FixedW mC wC i2)
+    (hw3 : FixedW mC wC i3)
+    (h12 : i1 ≠ i2) (h13 : i1 ≠ i3) (h23 : i2 ≠ i3) (n1 : i1 ≠ 0) (n2 : i2 ≠ 0)
+    (l2 : mC.lam i2 = i1) (l3 : mC.lam i3 = i2)
+    (hc1 : st.c ((mE.joint i).qIndex + 1) * st.c ((mE.joint i).qIndex + 1)
+      + st.s ((mE.joint i).qIndex + 1) * st.s ((mE.joint i).qIndex + 1) = 1)
+    (hc2 : st.c ((mE.joint i).qIndex + 2) * st.c ((mE.joint i).qIndex + 2)
+      + st.s ((mE.joint i).qIndex + 2) * st.s ((mE.joint i).qIndex + 2) = 1)
+    (hp : parentKin mE wE i = parentKin mC wC i1) :
+    kinOf (L06.ukBody mE st qd qdd i wE) i
+      = kinOf (L06.ukBody mC st qd qdd i3 (L06.ukBody mC st qd qdd i2
+          (L06.ukBody mC st qd qdd i1 wC))) i3 :=
+  euler_ukBody h wE wC st qd qdd hE hw1 hw2 hw3 h12 h13 h23 n1 n2 l2 l3 hc1 hc2 hp
+
+/-- B (`TranslationXYZ`; the joint frame must be a rotation + translation). -/
+theorem translation_step_eq_chain_steps {mE mC : ModelS α} {i i1 i2 i3 : Nat}
+    (h : TransChain mE i mC i1 i2 i3) (wE wC : WS α) (st : QS α)
+    (qd qdd : VecN α) (hE : FixedW mE wE i) (hw1 : FixedW mC wC i1) (hw2 : FixedW mC wC i2)
+    (hw3 : FixedW mC wC i3)
+    (h12 : i1 ≠ i2) (h13 : i1 ≠ i3) (h23 : i2 ≠ i3) (n1 : i1 ≠ 0) (n2 : i2 ≠ 0)
+    (l2 : mC.lam i2 = i1) (l3 : mC.lam i3 = i2)
+    (hrot : (mE.XT_ i).E.IsRot)
+    (hp : parentKin mE wE i = parentKin mC wC i1) :
+    kinOf (L06.ukBody mE st qd qdd i wE) i
+      = kinOf (L06.ukBody mC st qd qdd i3 (L06.ukBody mC st qd qdd i2
+          (L06.ukBody mC st qd qdd i1 wC))) i3 :=
+  trans_ukBody h wE wC st qd qdd hE hw1 hw2 hw3 h12 h13 h23 n1 n2 l2 l3 hrot hp
+
+end B
+
+section BEx
+open Rbdl.L07.Ex
+example := euler_step_eq_chain_steps chainZYX wE wC st qd qdd
+  (wE_fixed 2 (by decide) (by rw [mE_n]; decide)) (wC_fixed 2 (by decide) (by rw [mC_n]; decide))
+  (wC_fixed 3 (by decide) (by rw [mC_n]; decide)) (wC_fixed 4 (by decide) (by rw [mC_n]; decide))
+  (by decide) (by decide) (by decide) (by decide) (by decide) (by decide +kernel) (by decide +kernel)
+  (st_unit _) (st_unit _) parent_eq
+example := translation_step_eq_chain_steps chainT wTE wTC st qd qdd
+  (wTE_fixed 2 (by decide) (by rw [mTE_n]; decide)) (wTC_fixed 2 (by decide) (by rw [mTC_n]; decide))
+  (wTC_fixed 3 (by decide) (by rw [mTC_n]; decide)) (wTC_fixed 4 (by decide) (by rw [mTC_n]; decide))
+  (by decide) (by decide) (by decide) (by decide) (by decide) (by decide +kernel) (by decide +kernel)
+  (by rw [show mTE.XT_ 2 = C16.Ex.X from by decide +kernel]; exact C16.Ex.X_isRot) parentT_eq
+end BEx
+
+/-! ## C. Inverse dynamics: the three chain torques are `S₃ᵀ F` of the 3-DoF joint -/
+section C
+variable {α : Type} [Field α]
+
+/-- C (joint-type independent). In the backward pass, a chain `i₁ → i₂ → i₃` of 1-DoF joints whose
+    bodies `i₁`, `i₂` carry no force of their own (`f = 0` after the forward pass) and have no
+    other children gets the generalized forces `Sᵀ F`: `F` the accumulated force of body `i₃`,
+    `S = [X₃ X₂ s₁, X₃ s₂, s₃]` the axes transported into the frame of `i₃`. -/
+theorem chain_torques (m : ModelS α) (htree : ∀ i, 1 ≤ i → i < m.nBodies → m.lam i < i) (W : WS α)
+    (tau : VecN α)
+    (hdisj : ∀ i j x, 1 ≤ i → i < m.nBodies → 1 ≤ j → j < m.nBodies →
+      owns m W i x → owns m W j x → i = j)
+    (i1 i2 i3 : Nat) (b1 : 1 ≤ i1 ∧ i1 < m.nBodies) (b2 : 1 ≤ i2 ∧ i2 < m.nBodies)
+    (b3 : 1 ≤ i3 ∧ i3 < m.nBodies)
+    (a1 : m.arity i1 = .one) (a2 : m.arity i2 = .one) (a3 : m.arity i3 = .one)
+    (f1 : W.f i1 = SV.zero) (f2 : W.f i2 = SV.zero)
+    (ch1 : childrenOf m.lam (m.nBodies - 1) i1 = [i2])
+    (ch2 : childrenOf m.lam (m.nBodies - 1) i2 = [i3]) :
+    (⟨(rneaBackward m W tau).2 (m.joint i1).qIndex, (rneaBackward m W tau).2 (m.joint i2).qIndex,
+      (rneaBackward m W tau).2 (m.joint i3).qIndex⟩ : V3 α)
+      = M63.tmulSV ⟨(W.X_lambda i3).apply ((W.X_lambda i2).apply (W.S i1)),
+          (W.X_lambda i3).apply (W.S i2), W.S i3⟩ (rneaFtot m W i3) :=
+  chain_tau m htree W tau hdisj i1 i2 i3 b1 b2 b3 a1 a2 a3 f1 f2 ch1 ch2
+
+/-- a massless body (virtual, or zero spatial inertia) carries no body force -/
+theorem massless_body_force (m : ModelS α) (w : WS α) (i : Nat)
+    (h : (m.body i).isVirtual = true ∨ m.rbi i = RBI.zero) : bodyForce m w i = SV.zero :=
+  bodyForce_massless m w i h
+
+/-- C (all four Euler orders). `InverseDynamics` on a well-formed model containing the chain
+    (massless intermediate bodies without other children and without external force) writes to
+    the three chain coordinates `S₃ᵀ F`, where `S₃` is the motion subspace `jcalc` computes for the
+    Euler joint at the same angles and `F` is the accumulated force of the last chain body — the
+    same expression `C01.rnea_tau_three` gives for the Euler joint itself. -/
+theorem euler_chain_torques {mE mC : ModelS α} {i i1 i2 i3 : Nat}
+    (h : EulerChain mE i mC i1 i2 i3) (hwf : mC.WF) (hc : CustomInj mC)
+    (harity : ∀ j, 1 ≤ j → j < mC.nBodies → mC.arity j ≠ .other)
+    (wE w : WS α) (st : QS α) (qd qdd tau : VecN α) (fext : Option (Nat → SV α))
+    (hE : FixedW mE wE i) (hw1 : FixedW mC w i1) (hw2 : FixedW mC w i2) (hw3 : FixedW mC w i3)
+    (b1 : 1 ≤ i1 ∧ i1 < mC.nBodies) (b2 : 1 ≤ i2 ∧ i2 < mC.nBodies)
+    (b3 : 1 ≤ i3 ∧ i3 < mC.nBodies)
+    (m1 : (mC.body i1).isVirtual = true ∨ mC.rbi i1 = RBI.zero)
+    (m2 : (mC.body i2).isVirtual = true ∨ mC.rbi i2 = RBI.zero)
+    (fe : ∀ g, fext = some g → g i1 = SV.zero ∧ g i2 = SV.zero)
+    (ch1 : childrenOf mC.lam (mC.nBodies - 1) i1 = [i2])
+    (ch2 : childrenOf mC.lam (mC.nBodies - 1) i2 = [i3]) :
+    (⟨(inverseDynamics mC w st qd qdd tau fext).2 (mE.joint i).qIndex,
+      (inverseDynamics mC w st qd qdd tau fext).2 ((mE.joint i).qIndex + 1),
+      (inverseDynamics mC w st qd qdd tau fext).2 ((mE.joint i).qIndex + 2)⟩ : V3 α)
+      = ((jcalc mE wE i st qd).S3 i).tmulSV
+          (rneaFtot mC (idForward mC w st qd qdd fext) i3) :=
+  euler_chain_tau h hwf hc harity wE w st qd qdd tau fext hE hw1 hw2 hw3 b1 b2 b3 m1 m2 fe ch1 ch2
+
+/-- C (`TranslationXYZ`). -/
+theorem translation_chain_torques {mE mC : ModelS α} {i i1 i2 i3 : Nat}
+    (h : TransChain mE i mC i1 i2 i3) (hwf : mC.WF) (hc : CustomInj mC)
+    (harity : ∀ j, 1 ≤ j → j < mC.nBodies → mC.arity j ≠ .other)
+    (wE w : WS α) (st : QS α) (qd qdd tau : VecN α) (fext : Option (Nat → SV α))
+    (hE : FixedW mE wE i) (hw1 : FixedW mC w i1) (hw2 : FixedW mC w i2) (hw3 : FixedW mC w i3)
+    (b1 : 1 ≤ i1 ∧ i1 < mC.nBodies) (b2 : 1 ≤ i2 ∧ i2 < mC.nBodies)
+    (b3 : 1 ≤ i3 ∧ i3 < mC.nBodies)
+    (m1 : (mC.body i1).isVirtual = true ∨ mC.rbi i1 = RBI.zero)
+    (m2 : (mC.body i2).isVirtual = true ∨ mC.rbi i2 = RBI.zero)
+    (fe : ∀ g, fext = some g → g i1 = SV.zero ∧ g i2 = SV.zero)
+    (ch1 : childrenOf mC.lam (mC.nBodies - 1) i1 = [i2])
+    (ch2 : childrenOf mC.lam (mC.nBodies - 1) i2 = [i3]) :
+    (⟨(inverseDynamics mC w st qd qdd tau fext).2 (mE.joint i).qIndex,
+      (inverseDynamics mC w st qd qdd tau fext).2 ((mE.joint i).qIndex + 1),
+      (inverseDynamics mC w st qd qdd tau fext).2 ((mE.joint i).qIndex + 2)⟩ : V3 α)
+      = ((jcalc mE wE i st qd).S3 i).tmulSV
+          (rneaFtot mC (idForward mC w st qd qdd fext) i3) :=
+  trans_chain_tau h hwf hc harity wE w st qd qdd tau fext hE hw1 hw2 hw3 b1 b2 b3 m1 m2 fe ch1 ch2
+
+end C
+
+section CEx
+open Rbdl.L07.Ex
+example := massless_body_force (mC .eulerZYX) wC 2 (Or.inl (by decide +kernel))
+example := euler_chain_torques chainZYX mC_wf mC_customInj mC_arity wE wC st qd qdd qd
+  (some fun j => if j = 4 then ⟨⟨1, 2, 3⟩, ⟨4, 5, 6⟩⟩ else SV.zero)
+  (wE_fixed 2 (by decide) (by rw [mE_n]; decide)) (wC_fixed 2 (by decide) (by rw [mC_n]; decide))
+  (wC_fixed 3 (by decide) (by rw [mC_n]; decide)) (wC_fixed 4 (by decide) (by rw [mC_n]; decide))
+  ⟨by decide, by rw [mC_n]; decide⟩ ⟨by decide, by rw [mC_n]; decide⟩
+  ⟨by decide, by rw [mC_n]; decide⟩ (Or.inl (by decide +kernel)) (Or.inl (by decide +kernel))
+  (fun g hg => by cases hg; exact ⟨rfl, rfl⟩) (by decide +kernel) (by decide +kernel)
+example := translation_chain_torques chainT mTC_wf mTC_customInj mTC_arity wTE wTC st qd qdd qd none
+  (wTE_fixed 2 (by decide) (by rw [mTE_n]; decide)) (wTC_fixed 2 (by decide) (by rw [mTC_n]; decide))
+  (wTC_fixed 3 (by decide) (by rw [mTC_n]; decide)) (wTC_fixed 4 (by decide) (by rw [mTC_n]; decide))
+  ⟨by decide, by rw [mTC_n]; decide⟩ ⟨by decide, by rw [mTC_n]; decide⟩
+  ⟨by decide, by rw [mTC_n]; decide⟩ (Or.inl (by decide +kernel)) (Or.inl (by decide +kernel))
+  (fun g hg => nomatch hg) (by decide +kernel) (by decide +kernel)
+end CEx
+
+/-! ## C'. Whole model: 3-DoF joint versus chain, `InverseDynamics` -/
+section C'
+variable {α : Type} [Field α]
+
+/-- An Euler joint is the composite of the corresponding chain of revolute joints at every state
+    whose second and third angle are points of the unit circle (A and B in one bundle). -/
+theorem euler_is_composite {mE mC : ModelS α} {i i1 i2 i3 : Nat}
+    (h : EulerChain mE i mC i1 i2 i3) (wE wC : WS α) (st : QS α) (qd : VecN α)
+    (hE : FixedW mE wE i) (hw1 : FixedW mC wC i1) (hw2 : FixedW mC wC i2) (hw3 : FixedW mC wC i3)
+    (hc1 : st.c ((mE.joint i).qIndex + 1) * st.c ((mE.joint i).qIndex + 1)
+      + st.s ((mE.joint i).qIndex + 1) * st.s ((mE.joint i).qIndex + 1) = 1)
+    (hc2 : st.c ((mE.joint i).qIndex + 2) * st.c ((mE.joint i).qIndex + 2)
+      + st.s ((mE.joint i).qIndex + 2) * st.s ((mE.joint i).qIndex + 2) = 1) :
+    Composite3 mE i mC i1 i2 i3 wE wC st qd :=
+  composite3_of_euler h wE wC st qd hE hw1 hw2 hw3 hc1 hc2
+
+/-- `TranslationXYZ` is the composite of the chain of prismatic joints (joint frame a rotation). -/
+theorem translation_is_composite {mE mC : ModelS α} {i i1 i2 i3 : Nat}
+    (h : TransChain mE i mC i1 i2 i3) (wE wC : WS α) (st : QS α) (qd : VecN α)
+    (hE : FixedW mE wE i) (hw1 : FixedW mC wC i1) (hw2 : FixedW mC wC i2) (hw3 : FixedW mC wC i3)
+    (hrot : (mE.XT_ i).E.IsRot) :
+    Composite3 mE i mC i1 i2 i3 wE wC st qd :=
+  composite3_of_trans h wE wC st qd hE hw1 hw2 hw3 hrot
+
+/-- C' (whole model). Let `mE` contain a 3-DoF joint at body `iE` that is the composite of the chain
+    `i₁ → i₂ → i₃` of `mC` (`Composite3`), the bodies of `mE` being embedded by `φ` into those of
+    `mC` with `iE ↦ i₃`, the two extra bodies `i₁`, `i₂` massless (`ChainEmbed`), and let the joint rows
+    of all other corresponding joints agree.  Then `InverseDynamics` (same `q, q̇, q̈`, no external
+    forces) gives: the same `v`, `a`, `f` and accumulated force in corresponding bodies, the same
+    generalized forces of the other joints, and the same three generalized forces at the
+    coordinates of the 3-DoF joint / of the chain. -/
+theorem multidof_vs_chain_inverseDynamics {mE mC : ModelS α} {φ ψ : Nat → Nat}
+    {iE i1 i2 i3 : Nat} (C : ChainEmbed mE mC φ ψ iE i1 i2 i3)
+    (hwf : mE.WF) (hwf' : mC.WF) (hc : CustomInj mE) (hc' : CustomInj mC)
+    (wE wC : WS α) (st : QS α) (qd qdd tau tau' : VecN α)
+    (K : Composite3 mE iE mC i1 i2 i3 wE wC st qd)
+    (hrow : ∀ i, 1 ≤ i → i < mE.nBodies → i ≠ iE →
+      jrow mC wC (φ i) st qd qdd = jrow mE wE i st qd qdd) :
+    (∀ i, 1 ≤ i → i < mE.nBodies →
+      (idForward mC wC st qd qdd none).v (φ i) = (idForward mE wE st qd qdd none).v i ∧
+      (idForward mC wC st qd qdd none).a (φ i) = (idForward mE wE st qd qdd none).a i ∧
+      (idForward mC wC st qd qdd none).f (φ i) = (idForward mE wE st qd qdd none).f i ∧
+      rneaFtot mC (idForward mC wC st qd qdd none) (φ i)
+        = rneaFtot mE (idForward mE wE st qd qdd none) i) ∧
+    (∀ i d, 1 ≤ i → i < mE.nBodies → i ≠ iE → d < (mE.joint i).dof →
+      (inverseDynamics mC wC st qd qdd tau' none).2 ((mC.joint (φ i)).qIndex + d)
+        = (inverseDynamics mE wE st qd qdd tau none).2 ((mE.joint i).qIndex + d)) ∧
+    (∀ d, d < 3 →
+      (inverseDynamics mC wC st qd qdd tau' none).2 ((mE.joint iE).qIndex + d)
+        = (inverseDynamics mE wE st qd qdd tau none).2 ((mE.joint iE).qIndex + d)) :=
+  embed_inverseDynamics C hwf hwf' hc hc' wE wC st qd qdd tau tau' K hrow
+
+/-- C' (all entries). If moreover corresponding joints use the same coordinates (as in the models
+    `AddBody` builds), the two `tau` vectors agree on every entry below `dofCount`. -/
+theorem multidof_vs_chain_inverseDynamics_all {mE mC : ModelS α} {φ ψ : Nat → Nat}
+    {iE i1 i2 i3 : Nat} (C : ChainEmbed mE mC φ ψ iE i1 i2 i3)
+    (hwf : mE.WF) (hwf' : mC.WF) (hc : CustomInj mE) (hc' : CustomInj mC)
+    (wE wC : WS α) (st : QS α) (qd qdd tau tau' : VecN α)
+    (K : Composite3 mE iE mC i1 i2 i3 wE wC st qd)
+    (hrow : ∀ i, 1 ≤ i → i < mE.nBodies → i ≠ iE →
+      jrow mC wC (φ i) st qd qdd = jrow mE wE i st qd qdd)
+    (hq : ∀ i, 1 ≤ i → i < mE.nBodies → i ≠ iE → (mC.joint (φ i)).qIndex = (mE.joint i).qIndex)
+    (k : Nat) (hk : k < mE.dofCount) :
+    (inverseDynamics mC wC st qd qdd tau' none).2 k
+      = (inverseDynamics mE wE st qd qdd tau none).2 k :=
+  embed_inverseDynamics_all C hwf hwf' hc hc' wE wC st qd qdd tau tau' K hrow hq k hk
+
+/-- closed form of `UpdateKinematics` (tree order, supported arities, no custom joints): `a[0] = 0`
+    and every body holds one step of the forward recursion (`kstep`) with the joint row that
+    `jcalc` computes from the entry workspace, applied to the final values of its parent. -/
+theorem updateKinematics_closed (m : ModelS α)
+    (htree : ∀ i, 1 ≤ i → i < m.nBodies → m.lam i < i)
+    (har : ∀ i, 1 ≤ i → i < m.nBodies → m.arity i ≠ .other)
+    (hnc : ∀ i, 1 ≤ i → i < m.nBodies → (m.joint i).jt ≠ .custom)
+    (w : WS α) (st : QS α) (qd qdd : VecN α) :
+    UkClosed m st qd qdd w (updateKinematics m w st qd qdd) :=
+  uk_closed m htree har hnc w st qd qdd
+
+/-- C' (kinematics, whole model). `UpdateKinematics` on the model with the 3-DoF joint and on the
+    model with the chain leaves the same `X_base`, `v`, `a` in corresponding bodies (the Euler body
+    corresponds to the last chain body), for every state at which the joint is the composite of
+    the chain. -/
+theorem multidof_vs_chain_updateKinematics {mE mC : ModelS α} {φ ψ : Nat → Nat}
+    {iE i1 i2 i3 : Nat} (C : ChainEmbed mE mC φ ψ iE i1 i2 i3)
+    (hncE : ∀ i, 1 ≤ i → i < mE.nBodies → (mE.joint i).jt ≠ .custom)
+    (hncC : ∀ i, 1 ≤ i → i < mC.nBodies → (mC.joint i).jt ≠ .custom)
+    (wE wC : WS α) (st : QS α) (qd qdd : VecN α)
+    (K : Composite3 mE iE mC i1 i2 i3 wE wC st qd)
+    (hrow : ∀ i, 1 ≤ i → i < mE.nBodies → i ≠ iE →
+      jrow mC wC (φ i) st qd qdd = jrow mE wE i st qd qdd) :
+    ∀ i, 1 ≤ i → i < mE.nBodies →
+      kinOf (updateKinematics mC wC st qd qdd) (φ i) = kinOf (updateKinematics mE wE st qd qdd) i :=
+  embed_updateKinematics C hncE hncC wE wC st qd qdd K hrow
+
+end C'
+
+section C'NE
+variable {α : Type} [Field α] [DecidableEq α]
+
+/-- C' (`NonlinearEffects`). The same for `NonlinearEffects` (= `InverseDynamics` with `q̈ = 0`, C01):
+    the Coriolis / centrifugal / gravity terms of the two models agree entry by entry. -/
+theorem multidof_vs_chain_nonlinearEffects {mE mC : ModelS α} {φ ψ : Nat → Nat}
+    {iE i1 i2 i3 : Nat} (C : ChainEmbed mE mC φ ψ iE i1 i2 i3)
+    (hwf : mE.WF) (hwf' : mC.WF) (hc : CustomInj mE) (hc' : CustomInj mC)
+    (hperm : (mE.updateOrder.drop 1).Perm (List.range' 1 (mE.nBodies - 1)))
+    (hperm' : (mC.updateOrder.drop 1).Perm (List.range' 1 (mC.nBodies - 1)))
+    (hdc : mC.dofCount = mE.dofCount)
+    (wE wC : WS α) (st : QS α) (qd tau tau' : VecN α)
+    (hokE : ∀ i, 1 ≤ i → i < mE.nBodies → JointOK mE i)
+    (hokC : ∀ i, 1 ≤ i → i < mC.nBodies → JointOK mC i)
+    (hwE : ∀ i, 1 ≤ i → i < mE.nBodies → FixedW mE wE i)
+    (hwC : ∀ i, 1 ≤ i → i < mC.nBodies → FixedW mC wC i)
+    (K : Composite3 mE iE mC i1 i2 i3 wE wC st qd)
+    (hrow : ∀ i, 1 ≤ i → i < mE.nBodies → i ≠ iE →
+      jrow mC wC (φ i) st qd zeroVec = jrow mE wE i st qd zeroVec)
+    (hq : ∀ i, 1 ≤ i → i < mE.nBodies → i ≠ iE → (mC.joint (φ i)).qIndex = (mE.joint i).qIndex)
+    (k : Nat) (hk : k < mE.dofCount) :
+    (nonlinearEffects mC wC st qd tau' none).2 k = (nonlinearEffects mE wE st qd tau none).2 k :=
+  embed_nonlinearEffects C hwf hwf' hc hc' hperm hperm' hdc wE wC st qd tau tau' hokE hokC hwE hwC
+    K hrow hq k hk
+
+end C'NE
+
+section C'Ex
+open Rbdl.L07.Ex3
+/-- base, Euler-ZYX joint / emulated 3-DoF joint about z, y, x, and a further body on it:
+    for every state with the Euler angles 2 and 3 on the unit circle, every `q̇`, `q̈`, incoming `tau` -/
+example (st : QS Rat) (qd qdd tau tau' : VecN Rat)
+    (h1 : st.c 2 * st.c 2 + st.s 2 * st.s 2 = 1) (h2 : st.c 3 * st.c 3 + st.s 3 * st.s 3 = 1) :=
+  multidof_vs_chain_inverseDynamics embed mE3_wf mC3_wf mE3_ci mC3_ci wE3 wC3 st qd qdd tau tau'
+    (composite st qd h1 h2) (rows st qd qdd)
+example := composite L07.Ex.st L07.Ex.qd (L07.Ex.st_unit 2) (L07.Ex.st_unit 3)
+example := translation_is_composite L07.Ex.chainT L07.Ex.wTE L07.Ex.wTC L07.Ex.st L07.Ex.qd
+  (L07.Ex.wTE_fixed 2 (by decide) (by rw [L07.Ex.mTE_n]; decide))
+  (L07.Ex.wTC_fixed 2 (by decide) (by rw [L07.Ex.mTC_n]; decide))
+  (L07.Ex.wTC_fixed 3 (by decide) (by rw [L07.Ex.mTC_n]; decide))
+  (L07.Ex.wTC_fixed 4 (by decide) (by rw [L07.Ex.mTC_n]; decide))
+  (by rw [show L07.Ex.mTE.XT_ 2 = C16.Ex.X from by decide +kernel]; exact C16.Ex.X_isRot)
+example (st : QS Rat) (qd qdd tau tau' : VecN Rat)
+    (h1 : st.c 2 * st.c 2 + st.s 2 * st.s 2 = 1) (h2 : st.c 3 * st.c 3 + st.s 3 * st.s 3 = 1)
+    (k : Nat) (hk : k < mE3.dofCount) :=
+  multidof_vs_chain_inverseDynamics_all embed mE3_wf mC3_wf mE3_ci mC3_ci wE3 wC3 st qd qdd tau tau'
+    (composite st qd h1 h2) (rows st qd qdd) sameq k hk
+example (st : QS Rat) (qd qdd : VecN Rat) :=
+  updateKinematics_closed mC3 mC3_wf.lam_lt (embed_arity embed (composite L07.Ex.st qd
+    (L07.Ex.st_unit 2) (L07.Ex.st_unit 3))) mC3_nc wC3 st qd qdd
+example (st : QS Rat) (qd qdd : VecN Rat)
+    (h1 : st.c 2 * st.c 2 + st.s 2 * st.s 2 = 1) (h2 : st.c 3 * st.c 3 + st.s 3 * st.s 3 = 1) :=
+  multidof_vs_chain_updateKinematics embed mE3_nc mC3_nc wE3 wC3 st qd qdd (composite st qd h1 h2)
+    (rows st qd qdd)
+example (st : QS Rat) (qd tau tau' : VecN Rat)
+    (h1 : st.c 2 * st.c 2 + st.s 2 * st.s 2 = 1) (h2 : st.c 3 * st.c 3 + st.s 3 * st.s 3 = 1)
+    (k : Nat) (hk : k < mE3.dofCount) :=
+  multidof_vs_chain_nonlinearEffects embed mE3_wf mC3_wf mE3_ci mC3_ci mE3_perm mC3_perm
+    (by decide +kernel) wE3 wC3 st qd tau tau' mE3_ok mC3_ok wE3_fixed wC3_fixed
+    (composite st qd h1 h2) (rows st qd zeroVec) sameq k hk
+end C'Ex
+
+/-! ## D. `FloatingBase` = `TranslationXYZ` followed by `Spherical` -/
+section D
+variable {α : Type} [Field α] [DecidableEq α]
+
+/-- D. `AddBody` with a `FloatingBase` joint is, literally, `AddBody` of an unnamed massless virtual
+    body through a `TranslationXYZ` joint (same parent, same joint frame) followed by `AddBody` of
+    the body itself on that virtual body through a `Spherical` joint with the identity frame: the
+    resulting `ModelS` and the returned id are identical (the name check happens once, first). -/
+theorem floatingBase_eq_translation_spherical (m : ModelS α) (parent : Nat) (frame : XT α)
+    (j : Joint α) (b : Body α) (name : String) (hj : j.jt = .floatingBase) (jT jS : Joint α)
+    (hT : Joint.ofType .translationXYZ = some jT) (hS : Joint.ofType .spherical = some jS) :
+    m.addBody parent frame j b name =
+      if name ≠ "" ∧ m.hasName name then (m, .error .duplicateName)
+      else match m.addBody parent frame jT ModelS.nullBody "" with
+        | (m1, .ok id) => m1.addBody id XT.id jS b name
+        | r => r :=
+  floatingBase_eq m parent frame j b name hj jT jS hT hS
+
+example := floatingBase_eq_translation_spherical (ModelS.init : ModelS Rat) 0 Ex.frame
+  ⟨.floatingBase, [], 0, 0, noCustom⟩ Ex.body "pelvis" rfl _ _ rfl rfl
+
+end D
+
+/-! ## E. A body attached by a fixed joint versus its inertia merged into the parent beforehand -/
+section E
+variable {α : Type} [Field α] [DecidableEq α]
+
+/-- E1. `AddBody` with a fixed joint on a movable body `parent`: the parent's mass properties
+    become `Body.join`, i.e. (C15) its spatial inertia becomes `I_parent + Xᵀ I_b X`; every other
+    array the dynamics read is unchanged. -/
+theorem fixed_joint_mass_properties (m : ModelS α) (parent : Nat) (frame : XT α) (j : Joint α)
+    (b : Body α) (name : String) (m1 : ModelS α) (id : Nat) (hj : j.jt = .fixed)
+    (hp : parent < fixedDisc) (hadd : m.addBody parent frame j b name = (m1, .ok id)) :
+    ∃ pb, (m.body parent).join frame b = some pb ∧
+      m1.bodies = m.bodies.set parent pb ∧ m1.I = m.I.set parent pb.toRBI ∧
+      (frame.E.IsRot → pb.toRBI = (m.body parent).toRBI + frame.applyTransposeRBI b.toRBI) ∧
+      m1.lambda = m.lambda ∧ m1.xT = m.xT ∧ m1.joints = m.joints ∧ m1.mu = m.mu ∧
+      m1.w3Index = m.w3Index ∧ m1.customJoints = m.customJoints ∧
+      m1.updateOrder = m.updateOrder ∧ m1.gravity = m.gravity ∧ m1.dofCount = m.dofCount ∧
+      m1.qSize = m.qSize ∧ m1.qdotSize = m.qdotSize ∧ m1.lambdaQ = m.lambdaQ :=
+  fixed_mass_props m parent frame j b name m1 id hj hp hadd
+
+/-- E2. Adding a body through a joint that gets its own movable body and then a second body on it
+    through a fixed joint gives the same model as adding the joined body directly, except for the
+    three fields that only record the fixed body (`mFixedBodies`, the name table,
+    `previously_added_body_id`): all movable-body arrays (`lambda`, `X_T`, joints, bodies, `I`, `mu`,
+    counters, update order …) are identical. -/
+theorem fixed_joint_vs_merged_body (m : ModelS α) (p : Nat) (X : XT α) (j : Joint α)
+    (bP : Body α) (nP : String) (XF : XT α) (jF : Joint α) (bF : Body α) (nF : String)
+    (m1 m2 : ModelS α) (n fid : Nat) (hk : j.jt.kind = .single) (hF : jF.jt = .fixed)
+    (hI : m.I.length = m.bodies.length) (hn : m.bodies.length < fixedDisc)
+    (h1 : m.addBody p X j bP nP = (m1, .ok n))
+    (h2 : m1.addBody n XF jF bF nF = (m2, .ok fid)) :
+    ∃ pb, bP.join XF bF = some pb ∧
+      ∃ m1', m.addBody p X j pb nP = (m1', .ok n) ∧
+        m2 = reFNP m1' m2.fixedBodies m2.names m2.prevBodyId := by
+  rw [addBody_single _ _ _ _ _ _ hk] at h1
+  rw [ModelS.addBody_fixed _ _ _ _ _ _ hF] at h2
+  obtain ⟨pb, h3, m1', h4, h5⟩ := fixed_vs_merged m p X j bP nP XF bF nF m1 m2 n fid hI hn h1 h2
+  exact ⟨pb, h3, m1', by rw [addBody_single _ _ _ _ _ _ hk]; exact h4, h5⟩
+
+/-- E3 (congruence). The dynamics and kinematics routines read the model only through the
+    movable-body arrays: replacing `mFixedBodies`, the name table and `previously_added_body_id`
+    changes none of them (kinematic queries: for ids of movable bodies). -/
+theorem dynamics_read_movable_arrays (m : ModelS α) (f : List (FixedBody α))
+    (n : List (String × Nat)) (p : Nat) :
+    inverseDynamics (reFNP m f n p) = inverseDynamics m ∧
+    nonlinearEffects (reFNP m f n p) = nonlinearEffects m ∧
+    crba (reFNP m f n p) = crba m ∧
+    forwardDynamics (reFNP m f n p) = forwardDynamics m ∧
+    calcMInvTimesTau (reFNP m f n p) = calcMInvTimesTau m ∧
+    updateKinematics (reFNP m f n p) = updateKinematics m ∧
+    updateKinematicsCustom (reFNP m f n p) = updateKinematicsCustom m ∧
+    (∀ (w : WS α) (st : QS α) (id : Nat), id < fixedDisc →
+      calcBodyToBaseCoordinates (reFNP m f n p) w st id = calcBodyToBaseCoordinates m w st id ∧
+      calcPointJacobian (reFNP m f n p) w st id = calcPointJacobian m w st id ∧
+      (∀ qd, calcPointVelocity6D (reFNP m f n p) w st qd id = calcPointVelocity6D m w st qd id) ∧
+      (∀ qd qdd, calcPointAcceleration6D (reFNP m f n p) w st qd qdd id
+        = calcPointAcceleration6D m w st qd qdd id)) :=
+  ⟨reFNP_inverseDynamics m f n p, reFNP_nonlinearEffects m f n p, reFNP_crba m f n p,
+   reFNP_forwardDynamics m f n p, reFNP_calcMInvTimesTau m f n p, reFNP_updateKinematics m f n p,
+   reFNP_updateKinematicsCustom m f n p, fun w st id h =>
+     ⟨reFNP_calcBodyToBaseCoordinates m f n p w st id h, reFNP_calcPointJacobian m f n p w st id h,
+      fun qd => reFNP_calcPointVelocity6D m f n p w st qd id h,
+      fun qd qdd => reFNP_calcPointAcceleration6D m f n p w st qd qdd id h⟩⟩
+
+/-- E (summary). The model with the fixed-joint body and the model built with the merged body give
+    identical results of every dynamics routine, for every workspace, state and input. -/
+theorem fixed_joint_vs_merged_dynamics (m : ModelS α) (p : Nat) (X : XT α) (j : Joint α)
+    (bP : Body α) (nP : String) (XF : XT α) (jF : Joint α) (bF : Body α) (nF : String)
+    (m1 m2 : ModelS α) (n fid : Nat) (hk : j.jt.kind = .single) (hF : jF.jt = .fixed)
+    (hI : m.I.length = m.bodies.length) (hn : m.bodies.length < fixedDisc)
+    (h1 : m.addBody p X j bP nP = (m1, .ok n))
+    (h2 : m1.addBody n XF jF bF nF = (m2, .ok fid)) :
+    ∃ pb m1', bP.join XF bF = some pb ∧ m.addBody p X j pb nP = (m1', .ok n) ∧
+      inverseDynamics m2 = inverseDynamics m1' ∧ nonlinearEffects m2 = nonlinearEffects m1' ∧
+      crba m2 = crba m1' ∧ forwardDynamics m2 = forwardDynamics m1' ∧
+      calcMInvTimesTau m2 = calcMInvTimesTau m1' ∧ updateKinematics m2 = updateKinematics m1' := by
+  obtain ⟨pb, h3, m1', h4, h5⟩ :=
+    fixed_joint_vs_merged_body m p X j bP nP XF jF bF nF m1 m2 n fid hk hF hI hn h1 h2
+  obtain ⟨e1, e2, e3, e4, e5, e6, _⟩ :=
+    dynamics_read_movable_arrays m1' m2.fixedBodies m2.names m2.prevBodyId
+  refine ⟨pb, m1', h3, h4, ?_⟩
+  rw [h5]
+  exact ⟨e1, e2, e3, e4, e5, e6⟩
+
+end E
+
+section EEx
+open Rbdl.L07.Ex
+example := fixed_joint_mass_properties mP 1 C16.Ex.Y jfix bodyF "f" mPF fixedDisc rfl (by decide)
+  ex_add2
+example := fixed_joint_vs_merged_body (ModelS.init : ModelS Rat) 0 frame jy body "p" C16.Ex.Y jfix
+  bodyF "f" mP mPF 1 fixedDisc (by decide) rfl (by decide) (by decide) ex_add1 ex_add2
+example := fixed_joint_vs_merged_dynamics (ModelS.init : ModelS Rat) 0 frame jy body "p" C16.Ex.Y
+  jfix bodyF "f" mP mPF 1 fixedDisc (by decide) rfl (by decide) (by decide) ex_add1 ex_add2
+end EEx
+
+/-! ## F. `RevoluteX` built in, `Revolute` with axis `(1,0,0)`, user-defined -/
+section F
+variable {α : Type} [Field α]
+
+/-- F. For the built-in `RevoluteX` joint, the `Revolute` joint with axis `(1,0,0)` and the
+    user-defined joint re-implementing it (same coordinate, same joint frame), `jcalc` gives the
+    same `X_λ`, `v_J`, `c_J = 0`, and the same motion-subspace column `(1,0,0,0,0,0)` — hence the
+    same `S q̈` and the same `Sᵀ f` in every routine. -/
+theorem revoluteX_three_ways (mA mB mC : ModelS α) (i j k : Nat) (wA wB wC : WS α) (st : QS α)
+    (qd : VecN α)
+    (hA : (mA.joint i).jt = .revoluteX) (dA : (mA.joint i).dof = 1)
+    (hB : (mB.joint j).jt = .revolute) (dB : (mB.joint j).dof = 1)
+    (hBax : (mB.joint j).axes.headD SV.zero = sv6 1 0 0 0 0 0)
+    (hC : (mC.joint k).jt = .custom) (hCk : mC.custom (mC.joint k).customIdx = .revX)
+    (qB : (mB.joint j).qIndex = (mA.joint i).qIndex) (qC : (mC.joint k).qIndex = (mA.joint i).qIndex)
+    (xB : mB.XT_ j = mA.XT_ i) (xC : mC.XT_ k = mA.XT_ i)
+    (hwA : FixedW mA wA i) (hwB : FixedW mB wB j) :
+    let JA := jcalc mA wA i st qd
+    let JB := jcalc mB wB j st qd
+    let JC := jcalc mC wC k st qd
+    (JB.X_lambda j = JA.X_lambda i ∧ JC.X_lambda k = JA.X_lambda i) ∧
+    (JB.v_J j = JA.v_J i ∧ JC.v_J k = JA.v_J i) ∧
+    (JA.c_J i = SV.zero ∧ JB.c_J j = SV.zero ∧ JC.c_J k = SV.zero) ∧
+    (JA.Scols mA i = [sv6 1 0 0 0 0 0] ∧ JB.Scols mB j = [sv6 1 0 0 0 0 0] ∧
+      JC.Scols mC k = [sv6 1 0 0 0 0 0]) :=
+  revX_three mA mB mC i j k wA wB wC st qd hA dA hB dB hBax hC hCk qB qC xB xC hwA hwB
+
+/-- F (all three axes). The built-in `RevoluteX/Y/Z` joint and the `Revolute` joint with the same
+    axis have the same joint row (`X_λ`, `v_J`, `c_J`, column of `S`, `S q̈`). -/
+theorem revolute_builtin_vs_axis (mA mB : ModelS α) (i j : Nat) (wA wB : WS α) (st : QS α)
+    (qd : VecN α)
+    (hA : isRevXYZ (mA.joint i).jt = true) (dA : (mA.joint i).dof = 1)
+    (hB : (mB.joint j).jt = .revolute) (dB : (mB.joint j).dof = 1)
+    (hBax : (mB.joint j).axes.headD SV.zero = axisJ (mA.joint i).jt)
+    (qB : (mB.joint j).qIndex = (mA.joint i).qIndex) (xB : mB.XT_ j = mA.XT_ i)
+    (hwA : FixedW mA wA i) (hwB : FixedW mB wB j) (qdd : VecN α) :
+    jrow mB wB j st qd qdd = jrow mA wA i st qd qdd :=
+  rev_builtin_vs_axis mA mB i j wA wB st qd hA dA hB dB hBax qB xB hwA hwB qdd
+
+/-- F (user-defined 3-DoF joint). The user-defined joint re-implementing `EulerZYX` has the same
+    joint row as the built-in `EulerZYX` joint, whatever the workspace of the custom joint held. -/
+theorem eulerZYX_custom_vs_builtin (mA mC : ModelS α) (i k : Nat) (wA wC : WS α) (st : QS α)
+    (qd qdd : VecN α)
+    (hA : (mA.joint i).jt = .eulerZYX) (dA : (mA.joint i).dof = 3)
+    (hC : (mC.joint k).jt = .custom) (hCk : mC.custom (mC.joint k).customIdx = .eulerZYX)
+    (qC : (mC.joint k).qIndex = (mA.joint i).qIndex) (xC : mC.XT_ k = mA.XT_ i)
+    (hwA : FixedW mA wA i) :
+    jrow mC wC k st qd qdd = jrow mA wA i st qd qdd :=
+  L07.eulerZYX_custom_vs_builtin mA mC i k wA wC st qd qdd hA dA hC hCk qC xC hwA
+
+end F
+
+section FEx
+open Rbdl.L07.Ex
+example (wC : WS Rat) := revoluteX_three_ways mFA mFB mFC 2 2 2 (initWS mFA)
+  (poison mFB (initWS mFB) 9) wC st qd (by decide +kernel) (by decide +kernel) (by decide +kernel)
+  (by decide +kernel) (by decide +kernel) (by decide +kernel) (by decide +kernel)
+  (by decide +kernel) (by decide +kernel) (by decide +kernel) (by decide +kernel) mFA_fixed mFB_fixed
+example := revolute_builtin_vs_axis mFA mFB 2 2 (initWS mFA) (poison mFB (initWS mFB) 9) st qd
+  (by decide +kernel) (by decide +kernel) (by decide +kernel) (by decide +kernel)
+  (by decide +kernel) (by decide +kernel) (by decide +kernel) mFA_fixed mFB_fixed qdd
+example (wC : WS Rat) := eulerZYX_custom_vs_builtin (mE .eulerZYX) mFCE 2 2 wE wC st qd qdd
+  (by decide +kernel) (by decide +kernel) (by decide +kernel) (by decide +kernel)
+  (by decide +kernel) (by decide +kernel) (wE_fixed 2 (by decide) (by rw [mE_n]; decide))
+end FEx
+
+/-! ## G. Spherical joint versus Euler joint at the same orientation -/
+section G
+variable {α : Type} [Field α]
+
+/-- G (the `ω̇` identity). Evaluate `ω = S(q) q̇` of an Euler joint on the second-order jets of its
+    coordinates (`cos q_k`, `sin q_k` moving with `q̇_k`, `q̈_k`; `q̇_k` moving with `q̈_k`): the value
+    is `v_J` and the time derivative is `S q̈ + c_J` — so `c_J = Ṡ q̇`, for every state. -/
+theorem euler_omega_dot (e : JT) (he : isEuler e = true)
+    (c1 s1 c2 s2 qd0 qd1 qd2 qdd0 qdd1 qdd2 j0 j1 j2 : α) :
+    let W : V3 (D2 α) := eulerOmega e (D2.cosJ c1 s1 qd1 qdd1) (D2.sinJ c1 s1 qd1 qdd1)
+      (D2.cosJ c2 s2 qd2 qdd2) (D2.sinJ c2 s2 qd2 qdd2) ⟨qd0, qdd0, j0⟩ ⟨qd1, qdd1, j1⟩
+      ⟨qd2, qdd2, j2⟩
+    (⟨⟨W.x.x, W.y.x, W.z.x⟩, V3.zero⟩ : SV α)
+      = (eulerS e M63.zero c1 s1 c2 s2).mulV3 ⟨qd0, qd1, qd2⟩ ∧
+    (⟨⟨W.x.d1, W.y.d1, W.z.d1⟩, V3.zero⟩ : SV α)
+      = (eulerS e M63.zero c1 s1 c2 s2).mulV3 ⟨qdd0, qdd1, qdd2⟩
+        + eulerCJ e c1 s1 c2 s2 qd0 qd1 qd2 :=
+  eulerOmega_jet e he c1 s1 c2 s2 qd0 qd1 qd2 qdd0 qdd1 qdd2 j0 j1 j2
+example := euler_omega_dot (α := Rat) .eulerYXZ rfl (3/5) (4/5) (5/13) (12/13) 1 2 3 (-1) 0 2 0 0 0
+
+/-- G. A spherical joint and an Euler joint with the same joint frame at the same orientation
+    (`E(quaternion) = E(Euler angles)`).  If the velocity coordinates of the spherical joint are
+    the angular velocity `ω = S(q) q̇` of the Euler joint, `jcalc` gives the same `X_λ` and `v_J`.  If
+    moreover its acceleration coordinates are `ω̇ = S q̈ + c_J` (the time derivative of `ω`, see
+    `euler_omega_dot`; the spherical joint itself has `c_J = 0` and `a = S q̈`), one iteration of
+    the `UpdateKinematics` loop leaves the same `X_base`, `v`, `a` in the two bodies. -/
+theorem spherical_vs_euler (mS mE : ModelS α) (i j : Nat) (wS wE : WS α) (stS stE : QS α)
+    (qdS qddS qdE qddE : VecN α)
+    (hS : (mS.joint i).jt = .spherical) (hdS : (mS.joint i).dof = 3)
+    (hE : isEuler (mE.joint j).jt = true) (hdE : (mE.joint j).dof = 3)
+    (hX : mS.XT_ i = mE.XT_ j) (hwS : FixedW mS wS i) (hwE : FixedW mE wE j)
+    (hrot : (getQuaternion mS i stS.q).toMatrix
+      = eulerE (mE.joint j).jt (stE.c (mE.joint j).qIndex) (stE.s (mE.joint j).qIndex)
+          (stE.c ((mE.joint j).qIndex + 1)) (stE.s ((mE.joint j).qIndex + 1))
+          (stE.c ((mE.joint j).qIndex + 2)) (stE.s ((mE.joint j).qIndex + 2)))
+    (homega : (⟨⟨qdS (mS.joint i).qIndex, qdS ((mS.joint i).qIndex + 1),
+        qdS ((mS.joint i).qIndex + 2)⟩, V3.zero⟩ : SV α)
+      = (jcalc mE wE j stE qdE).v_J j) :
+    (jcalc mS wS i stS qdS).X_lambda i = (jcalc mE wE j stE qdE).X_lambda j ∧
+    (jcalc mS wS i stS qdS).v_J i = (jcalc mE wE j stE qdE).v_J j ∧
+    (jcalc mS wS i stS qdS).c_J i = SV.zero ∧
+    ((⟨⟨qddS (mS.joint i).qIndex, qddS ((mS.joint i).qIndex + 1),
+        qddS ((mS.joint i).qIndex + 2)⟩, V3.zero⟩ : SV α)
+      = (jcalc mE wE j stE qdE).Sqdd mE j qddE + (jcalc mE wE j stE qdE).c_J j →
+     parentKin mS wS i = parentKin mE wE j →
+     kinOf (L06.ukBody mS stS qdS qddS i wS) i = kinOf (L06.ukBody mE stE qdE qddE j wE) j) :=
+  ⟨(spherical_euler mS mE i j wS wE stS stE qdS qddS qdE qddE hS hdS hE hdE hX hwS hwE hrot homega).1,
+   (spherical_euler mS mE i j wS wE stS stE qdS qddS qdE qddE hS hdS hE hdE hX hwS hwE hrot homega).2.1,
+   (jcalc_sph mS wS i stS qdS hS hwS).2.2.2,
+   (spherical_euler mS mE i j wS wE stS stE qdS qddS qdE qddE hS hdS hE hdE hX hwS hwE hrot homega).2.2⟩
+
+end G
+
+section GEx
+open Rbdl.L07.Ex
+example := spherical_vs_euler mS (mE .eulerZYX) 2 2 (initWS mS) wG stS stG qdS qddS qd qdd
+  (by decide +kernel) (by decide +kernel) (by decide +kernel) (by decide +kernel)
+  (by decide +kernel) mS_fixed wG_fixed (by decide +kernel) homegaG
+/-- … and with `ω̇ = S q̈ + c_J` as acceleration coordinates the whole step agrees -/
+example : kinOf (L06.ukBody mS stS qdS qddS 2 (initWS mS)) 2
+    = kinOf (L06.ukBody (mE .eulerZYX) stG qd qdd 2 wG) 2 :=
+  (spherical_vs_euler mS (mE .eulerZYX) 2 2 (initWS mS) wG stS stG qdS qddS qd qdd
+    (by decide +kernel) (by decide +kernel) (by decide +kernel) (by decide +kernel)
+    (by decide +kernel) mS_fixed wG_fixed (by decide +kernel) homegaG).2.2.2 haccG parentG
+end GEx
+
+/-! ## H. Sibling order: a relabelling of the bodies relabels the results -/
+section H
+variable {α : Type} [Field α]
+
+/-- H0. Under a relabelling `σ` the children of `σ i` are the images of the children of `i`
+    (as sets; the ascending lists are permutations of each other). -/
+theorem relabel_children {m m' : ModelS α} {σ σi : Nat → Nat} (R : Relabel m m' σ σi) (i : Nat)
+    (hi : i < m.nBodies) :
+    (childrenOf m'.lam (m'.nBodies - 1) (σ i)).Perm
+      ((childrenOf m.lam (m.nBodies - 1) i).map σ) :=
+  L07.relabel_children R i hi
+
+/-- H (general relabelling congruence for the recursive Newton–Euler algorithm). Let `σ` be a
+    bijection of the body indices of `m` onto those of `m'` that fixes the base and commutes with
+    `lambda`, the spatial inertias, the virtual flags and the joint arities (`Relabel`; gravity
+    equal), and suppose the joint rows `jcalc` computes for corresponding joints agree (`jrow`;
+    see `relabel_joint_rows`), external forces correspond.  Then after the forward pass
+    corresponding bodies have the same `v`, `a`, `f`; the accumulated forces of the backward pass
+    agree; and coordinate `d` of joint `σ i` receives the generalized force that coordinate `d` of
+    joint `i` receives: `τ'[q'(σ i) + d] = τ[q(i) + d]`. -/
+theorem relabel_rnea {m m' : ModelS α} {σ σi : Nat → Nat} (R : Relabel m m' σ σi)
+    (hwf : m.WF) (hwf' : m'.WF) (hc : CustomInj m) (hc' : CustomInj m')
+    (w w' : WS α) (st st' : QS α) (qd qd' qdd qdd' tau tau' : VecN α)
+    (fext fext' : Option (Nat → SV α))
+    (hrow : ∀ i, 1 ≤ i → i < m.nBodies →
+      jrow m' w' (σ i) st' qd' qdd' = jrow m w i st qd qdd)
+    (hfe : FextEq m σ w w' fext fext') :
+    (∀ i, 1 ≤ i → i < m.nBodies →
+      (idForward m' w' st' qd' qdd' fext').v (σ i) = (idForward m w st qd qdd fext).v i ∧
+      (idForward m' w' st' qd' qdd' fext').a (σ i) = (idForward m w st qd qdd fext).a i ∧
+      (idForward m' w' st' qd' qdd' fext').f (σ i) = (idForward m w st qd qdd fext).f i ∧
+      rneaFtot m' (idForward m' w' st' qd' qdd' fext') (σ i)
+        = rneaFtot m (idForward m w st qd qdd fext) i) ∧
+    (∀ i d, 1 ≤ i → i < m.nBodies → d < (m.joint i).dof →
+      (inverseDynamics m' w' st' qd' qdd' tau' fext').2 ((m'.joint (σ i)).qIndex + d)
+        = (inverseDynamics m w st qd qdd tau fext).2 ((m.joint i).qIndex + d)) :=
+  relabel_inverseDynamics R hwf hwf' hc hc' w w' st st' qd qd' qdd qdd' tau tau' fext fext' hrow hfe
+
+/-- H1. Two joints of the same type, axis, number of degrees of freedom, joint frame (and
+    custom-joint kind) whose coordinates sit at different positions, evaluated at states that agree
+    on these coordinates, have the same joint row — for every joint type `jcalc` supports. -/
+theorem relabel_joint_rows (m : ModelS α) (i : Nat) (m' : ModelS α) (i' : Nat) (w w' : WS α)
+    (st st' : QS α) (qd qd' qdd qdd' : VecN α)
+    (hJ : JointEq m i m' i') (hC : CoordEq m i m' i' st st' qd qd' qdd qdd')
+    (hok : JointOK m i) (hw : FixedW m w i) (hw' : FixedW m' w' i') :
+    jrow m' w' i' st' qd' qdd' = jrow m w i st qd qdd :=
+  jrow_shift m i m' i' w w' st st' qd qd' qdd qdd' hJ hC hok hw hw'
+
+/-- H (with the hypotheses on the joints spelled out). The same tree with the bodies numbered
+    differently — e.g. sibling branches added in a different order — gives the same velocities,
+    accelerations, forces, and the same generalized forces up to the induced permutation of the
+    coordinates. -/
+theorem relabel_rnea_of_joints {m m' : ModelS α} {σ σi : Nat → Nat} (R : Relabel m m' σ σi)
+    (hwf : m.WF) (hwf' : m'.WF) (hc : CustomInj m) (hc' : CustomInj m')
+    (w w' : WS α) (st st' : QS α) (qd qd' qdd qdd' tau tau' : VecN α)
+    (fext fext' : Option (Nat → SV α))
+    (hJ : ∀ i, 1 ≤ i → i < m.nBodies → JointEq m i m' (σ i))
+    (hC : ∀ i, 1 ≤ i → i < m.nBodies → CoordEq m i m' (σ i) st st' qd qd' qdd qdd')
+    (hok : ∀ i, 1 ≤ i → i < m.nBodies → JointOK m i)
+    (hw : ∀ i, 1 ≤ i → i < m.nBodies → FixedW m w i)
+    (hw' : ∀ i, 1 ≤ i → i < m.nBodies → FixedW m' w' (σ i))
+    (hfe : FextEq m σ w w' fext fext') :
+    (∀ i, 1 ≤ i → i < m.nBodies →
+      (idForward m' w' st' qd' qdd' fext').v (σ i) = (idForward m w st qd qdd fext).v i ∧
+      (idForward m' w' st' qd' qdd' fext').a (σ i) = (idForward m w st qd qdd fext).a i ∧
+      (idForward m' w' st' qd' qdd' fext').f (σ i) = (idForward m w st qd qdd fext).f i ∧
+      rneaFtot m' (idForward m' w' st' qd' qdd' fext') (σ i)
+        = rneaFtot m (idForward m w st qd qdd fext) i) ∧
+    (∀ i d, 1 ≤ i → i < m.nBodies → d < (m.joint i).dof →
+      (inverseDynamics m' w' st' qd' qdd' tau' fext').2 ((m'.joint (σ i)).qIndex + d)
+        = (inverseDynamics m w st qd qdd tau fext).2 ((m.joint i).qIndex + d)) :=
+  relabel_inverseDynamics' R hwf hwf' hc hc' w w' st st' qd qd' qdd qdd' tau tau' fext fext'
+    hJ hC hok hw hw' hfe
+
+/-- H (kinematics). `UpdateKinematics` on the relabelled model leaves the same `X_base`, `v`, `a` in
+    corresponding bodies. -/
+theorem relabel_updateKinematics {m m' : ModelS α} {σ σi : Nat → Nat} (R : Relabel m m' σ σi)
+    (hnc : ∀ i, 1 ≤ i → i < m.nBodies → (m.joint i).jt ≠ .custom)
+    (hnc' : ∀ i, 1 ≤ i → i < m'.nBodies → (m'.joint i).jt ≠ .custom)
+    (w w' : WS α) (st st' : QS α) (qd qd' qdd qdd' : VecN α)
+    (hrow : ∀ i, 1 ≤ i → i < m.nBodies →
+      jrow m' w' (σ i) st' qd' qdd' = jrow m w i st qd qdd) :
+    ∀ i, 1 ≤ i → i < m.nBodies →
+      kinOf (updateKinematics m' w' st' qd' qdd') (σ i) = kinOf (updateKinematics m w st qd qdd) i :=
+  L07.relabel_updateKinematics R hnc hnc' w w' st st' qd qd' qdd qdd' hrow
+
+/-- H (construction level). Adding two single-body siblings `A`, `B` to the same parent in the two
+    possible orders gives models related by the exchange `σ = (n  n+1)` of the two new body
+    indices: `σ` commutes with `lambda` and all per-body data (`Relabel`), corresponding joints are
+    equal up to the position of their coordinates (`JointEq`), and the coordinates are exchanged
+    block-wise: `A` has `[dofCount, dofCount + dof A)` in the first model and
+    `[dofCount + dof B, …)` in the second.  With `relabel_rnea_of_joints` this gives the permuted
+    RNEA results for every state. -/
+theorem sibling_order_relabel (m : ModelS α) (p : Nat) (XA : XT α) (jA : Joint α) (bA : Body α)
+    (nA : String) (XB : XT α) (jB : Joint α) (bB : Body α) (nB : String)
+    (hwf : m.WF) (hp : m.validId p)
+    (hAB : (twoSiblings m p XA jA bA nA XB jB bB nB).WF)
+    (hBA : (twoSiblings m p XB jB bB nB XA jA bA nA).WF)
+    (har : ∀ i, 1 ≤ i → i < m.nBodies → m.arity i ≠ .other)
+    (haA : jA.jt = .custom ∨ (jA.jt ≠ .custom ∧ (jA.dof = 1 ∨ jA.dof = 3)))
+    (haB : jB.jt = .custom ∨ (jB.jt ≠ .custom ∧ (jB.dof = 1 ∨ jB.dof = 3))) :
+    Relabel (twoSiblings m p XA jA bA nA XB jB bB nB) (twoSiblings m p XB jB bB nB XA jA bA nA)
+      (swap2 m.bodies.length) (swap2 m.bodies.length) ∧
+    (∀ i, 1 ≤ i → i < m.bodies.length + 2 →
+      JointEq (twoSiblings m p XA jA bA nA XB jB bB nB) i
+        (twoSiblings m p XB jB bB nB XA jA bA nA) (swap2 m.bodies.length i)) ∧
+    (((twoSiblings m p XA jA bA nA XB jB bB nB).joint m.bodies.length).qIndex = m.dofCount ∧
+     ((twoSiblings m p XA jA bA nA XB jB bB nB).joint (m.bodies.length + 1)).qIndex
+        = m.dofCount + jA.dof) ∧
+    (((twoSiblings m p XB jB bB nB XA jA bA nA).joint m.bodies.length).qIndex = m.dofCount ∧
+     ((twoSiblings m p XB jB bB nB XA jA bA nA).joint (m.bodies.length + 1)).qIndex
+        = m.dofCount + jB.dof) :=
+  ⟨(siblings_relabel m p XA jA bA nA XB jB bB nB hwf hp hAB hBA har haA haB).1,
+   (siblings_relabel m p XA jA bA nA XB jB bB nB hwf hp hAB hBA har haA haB).2,
+   siblings_qIndex m p XA jA bA nA XB jB bB nB hwf, siblings_qIndex m p XB jB bB nB XA jA bA nA hwf⟩
+
+end H
+
+section HSib
+variable {α : Type} [Field α] [DecidableEq α]
+
+/-- `twoSiblings` is the model two successful `AddBody` calls (joints with a single movable body)
+    produce; the returned ids are `n` and `n + 1`. -/
+theorem sibling_order_of_addBody (m : ModelS α) (p : Nat) (XA : XT α) (jA : Joint α) (bA : Body α)
+    (nA : String) (XB : XT α) (jB : Joint α) (bB : Body α) (nB : String) (m1 m2 : ModelS α)
+    (n1 n2 : Nat) (hkA : jA.jt.kind = .single) (hkB : jB.jt.kind = .single)
+    (h1 : m.addBody p XA jA bA nA = (m1, .ok n1)) (h2 : m1.addBody p XB jB bB nB = (m2, .ok n2)) :
+    m2 = twoSiblings m p XA jA bA nA XB jB bB nB ∧ n1 = m.bodies.length ∧
+      n2 = m.bodies.length + 1 :=
+  twoSiblings_of_addBody m p XA jA bA nA XB jB bB nB m1 m2 n1 n2 hkA hkB h1 h2
+
+end HSib
+
+section HNE
+variable {α : Type} [Field α] [DecidableEq α]
+
+/-- H (`NonlinearEffects`). The relabelled model gives the relabelled nonlinear effects. -/
+theorem relabel_nonlinearEffects {m m' : ModelS α} {σ σi : Nat → Nat} (R : Relabel m m' σ σi)
+    (hwf : m.WF) (hwf' : m'.WF) (hc : CustomInj m) (hc' : CustomInj m')
+    (hperm : (m.updateOrder.drop 1).Perm (List.range' 1 (m.nBodies - 1)))
+    (hperm' : (m'.updateOrder.drop 1).Perm (List.range' 1 (m'.nBodies - 1)))
+    (hdc : m'.dofCount = m.dofCount)
+    (w w' : WS α) (st st' : QS α) (qd qd' tau tau' : VecN α)
+    (hJ : ∀ i, 1 ≤ i → i < m.nBodies → JointEq m i m' (σ i))
+    (hC : ∀ i, 1 ≤ i → i < m.nBodies → CoordEq m i m' (σ i) st st' qd qd' zeroVec zeroVec)
+    (hok : ∀ i, 1 ≤ i → i < m.nBodies → JointOK m i)
+    (hok' : ∀ i, 1 ≤ i → i < m'.nBodies → JointOK m' i)
+    (hw : ∀ i, 1 ≤ i → i < m.nBodies → FixedW m w i)
+    (hw' : ∀ i, 1 ≤ i → i < m'.nBodies → FixedW m' w' i)
+    (i d : Nat) (h1 : 1 ≤ i) (h2 : i < m.nBodies) (hd : d < (m.joint i).dof) :
+    (nonlinearEffects m' w' st' qd' tau' none).2 ((m'.joint (σ i)).qIndex + d)
+      = (nonlinearEffects m w st qd tau none).2 ((m.joint i).qIndex + d) :=
+  L07.relabel_nonlinearEffects R hwf hwf' hc hc' hperm hperm' hdc w w' st st' qd qd' tau tau'
+    hJ hC hok hok' hw hw' i d h1 h2 hd
+
+end HNE
+
+section HEx
+open Rbdl.L07.Ex2 Rbdl.L07.Ex
+/-- the two trees: branch A (Euler joint, child C) and branch B added in the two orders;
+    `σ = (2 3 4)`: A 2 ↦ 3, C 3 ↦ 4, B 4 ↦ 2; coordinates `q' = (q₀, q₅, q₁, q₂, q₃, q₄)` -/
+example : m1.lambda = [0, 0, 1, 2, 1] ∧ m2.lambda = [0, 0, 1, 1, 3] := m1_lambda
+example := relabel_children relabel 1 (by decide +kernel)
+/-- for every state, velocity, acceleration and incoming `tau`, with external forces -/
+example (st : QS Rat) (qd qdd tau tau' : VecN Rat) (g : Nat → SV Rat) :=
+  relabel_rnea_of_joints relabel m1_wf m2_wf m1_ci m2_ci w1 w2 st (perm st) qd (permV qd) qdd
+    (permV qdd) tau tau' (some g) (some fun j => g (σi j)) jointEq (coordEq st qd qdd) jointOK
+    w1_fixed w2_fixed
+    ⟨fun i h1 h2 => by
+      show g (σi (σ i)) = g i
+      rw [relabel.left i h2], by
+      show w2.X_base 0 = w1.X_base 0
+      simp only [w1, w2, poison, Nat.lt_irrefl, false_and, if_false]; rfl⟩
+example (st : QS Rat) (qd qdd : VecN Rat) :=
+  relabel_joint_rows m1 2 m2 3 w1 w2 st (perm st) qd (permV qd) qdd (permV qdd)
+    (jointEq 2 (by decide) (by decide +kernel)) (coordEq st qd qdd 2 (by decide) (by decide +kernel))
+    (jointOK 2 (by decide) (by decide +kernel)) (w1_fixed 2 (by decide) (by decide +kernel))
+    (w2_fixed 2 (by decide) (by decide +kernel))
+example (st : QS Rat) (qd tau tau' : VecN Rat) :=
+  relabel_nonlinearEffects relabel m1_wf m2_wf m1_ci m2_ci m1_perm m2_perm (by decide +kernel)
+    w1 w2 st (perm st) qd (permV qd) tau tau' jointEq (coordEq0 st qd) jointOK jointOK2 w1_fixed
+    w2_fixed_all 2 1 (by decide) (by decide +kernel) (by decide +kernel)
+example (st : QS Rat) (qd qdd : VecN Rat) :=
+  relabel_updateKinematics relabel m1_nc m2_nc w1 w2 st (perm st) qd (permV qd) qdd (permV qdd)
+    (rows12 st qd qdd)
+example := sibling_order_relabel mB0 1 frame jA body "A" C16.Ex.Y jz bodyF "B" mB0_wf
+  (by decide +kernel) sAB_wf sBA_wf
+  (fun i h1 h2 => by
+    have : i = 1 := by have : mB0.nBodies = 2 := by decide +kernel
+                       omega
+    subst this; decide +kernel)
+  (Or.inr ⟨by decide, Or.inr (by decide +kernel)⟩) (Or.inr ⟨by decide, Or.inl (by decide +kernel)⟩)
+example := sibling_order_of_addBody mB0 1 frame jA body "A" C16.Ex.Y jz bodyF "B" mA1 mA2 2 3
+  (by decide) (by decide) mA1_add mA2_add
+end HEx
+
 end Rbdl.C07
